@@ -270,6 +270,10 @@ class Importance(CellModifierInput):
                 ):
                     ret += "\n" + " " * BLANK_SPACE_CONTINUE
                 ret += self._particle_importances[particle].format()
+                # formatting is an observation: the entry keeps the particles it was given with, so that
+                # particles whose values are equal again later are printed together again
+                for removee in to_remove:
+                    other_particles.add(removee)
                 particles_printed.add(particle)
             return ret
         else:
